@@ -71,6 +71,7 @@ type w1Config struct {
 	faultsStop       int  // second of the run at which faults stop
 	spareScenario    bool // the only fault is one replica being down for a while
 	spareReplica     int
+	remoteWindow     bool // the aggregators' short window is changed at run time through their remote configuration
 	gracefulAggStops bool // aggregators are also stopped the way cmd/statshouse-agg main() does on SIGINT, with an insert in flight (not a fault)
 	gracefulStops    bool // agents are also stopped the way the agent's main() does on SIGINT and restarted on their disk cache (not a fault)
 	rawSender        bool // two raw senders (w1_raw_test.go) take part: hand-built payloads with unusual host arguments and rows the aggregator rejects
@@ -155,9 +156,14 @@ type w1World struct {
 	lastRaw  uint32
 	graceful int // graceful agent stops performed so far
 	aggStops int // graceful aggregator stops begun so far
-	zombies  []*w1Inst
-	allInsts []*w1Inst
-	clients  []*w1Client
+
+	// remote configuration of the aggregators (journal state outside the processes)
+	remoteDesc    string
+	remoteVersion int64
+	remotePending []int // replicas the latest journal event has not reached yet
+	zombies       []*w1Inst
+	allInsts      []*w1Inst
+	clients       []*w1Client
 
 	or w1Oracle
 }
@@ -361,6 +367,8 @@ func w1Run(t *testing.T, r *verifsim.Run) {
 	r.Config["graceful_agent_stops"] = cfg.gracefulStops
 	cfg.gracefulAggStops = c.Intn(2, "graceful_aggregator_stops") == 1 && !cfg.spareScenario
 	r.Config["graceful_aggregator_stops"] = cfg.gracefulAggStops
+	cfg.remoteWindow = c.Intn(2, "remote_short_window") == 1
+	r.Config["remote_short_window_changes"] = cfg.remoteWindow
 	r.Config["agents"], r.Config["run_len_s"], r.Config["historic_window_s"] = cfg.agents, cfg.runLen, cfg.window
 	r.Config["short_window"], r.Config["inserters"], r.Config["save_immediately"] = cfg.shortWindow, cfg.inserters, cfg.saveImm
 	r.Config["receive_budget"], r.Config["keys"], r.Config["faulty"] = cfg.receiveBudget, cfg.keys, cfg.faulty
@@ -442,8 +450,13 @@ func w1Run(t *testing.T, r *verifsim.Run) {
 			act = 7 // also in fault-free runs and after faults_stop: a restart is not a fault
 		} else if cfg.gracefulAggStops && c.Intn(40, "graceful_agg_act") == 1 {
 			act = 6
+		} else if cfg.remoteWindow && c.Intn(30, "remote_window_act") == 1 {
+			act = 5
 		}
+		w.deliverRemoteConfig() // journal events still on their way to some replicas
 		switch {
+		case act == 5 && cfg.remoteWindow:
+			w.actRemoteWindow()
 		case act == 6 && cfg.gracefulAggStops:
 			w.actReplicaGraceful()
 			if r.Failed() {
@@ -960,6 +973,48 @@ func (w *w1World) stopReplica(rep *w1Replica) {
 		rep.insertDisabled = true
 		rep.agg.DisableNewInsert()
 	}
+}
+
+// actRemoteWindow changes the aggregators' short window the way production does: the description of the
+// metric statshouse_aggregator_remote_config is edited ("--short-window=N", N in 3..5, what
+// ConfigAggregatorRemote.Validate accepts) and the journal event reaches the aggregators' metric
+// storages, either all at this instant or one now and the others a scheduler step later; goTicker of
+// each process picks it up at its next second (updateConfigRemotelyExperimental). Not a fault. Agents
+// have no such setting (they work with data_model.MaxShortWindow).
+func (w *w1World) actRemoteWindow() {
+	v := 3 + w.c.Intn(3, "remote_short_window_value")
+	desc := fmt.Sprintf("--short-window=%d", v)
+	if desc == w.remoteDesc {
+		return
+	}
+	w.remoteDesc = desc
+	w.remoteVersion += 100
+	w.r.Sched("remote_config", "journal")
+	w.r.Extra["remote_short_window_changes"]++
+	w.remotePending = w.remotePending[:0]
+	first := -1
+	if w.c.Intn(2, "remote_window_scope") == 1 {
+		first = w.c.Intn(3, "remote_window_first_replica")
+	}
+	w.r.Event("sched", "aggregator remote config: %s (first to replica %d, 0 = all at once)", desc, first+1)
+	for _, rep := range w.reps {
+		if first >= 0 && rep.idx != first {
+			w.remotePending = append(w.remotePending, rep.idx)
+			continue
+		}
+		if rep.up {
+			w1ApplyRemoteConfig(rep.agg, w.remoteDesc, w.remoteVersion)
+		}
+	}
+}
+
+func (w *w1World) deliverRemoteConfig() {
+	for _, idx := range w.remotePending {
+		if rep := w.reps[idx]; rep.up {
+			w1ApplyRemoteConfig(rep.agg, w.remoteDesc, w.remoteVersion)
+		}
+	}
+	w.remotePending = w.remotePending[:0]
 }
 
 // actReplicaGraceful stops an aggregator the way main() of cmd/statshouse-agg does on SIGINT (same
